@@ -126,6 +126,12 @@ impl Space for Equil {
     }
     fn run(&self, id: u64, ctx: &mut Ctx) -> CaseResult {
         let (p, es) = self.decode(id);
+        run_equil(p, es, ctx)
+    }
+}
+
+fn run_equil(p: Prob, es: EqSet, ctx: &mut Ctx) -> CaseResult {
+    {
         let mut st = DefaultSettings::<f64>::default();
         st.verbose = false;
         st.equilibrate_enable = es.enable;
@@ -221,6 +227,50 @@ impl Space for Equil {
     }
 }
 
+// ----------------------------------------------------------------------
+// coincidences inside a cone: the common factor of a non-scalar cone is the mean of its rows' factors; rows
+// whose own factor equals that mean exactly (first, last or any other row) are a special value of the
+// correction 'mean / own factor'. Diagonal A with entries 1/f^2 gives row factors f after one pass, so every
+// assignment of a small integer menu to the rows realises every such coincidence.
+// ----------------------------------------------------------------------
+pub struct ConeMean {
+    pub cones: Vec<ConeSpec>,
+}
+const CM_FACTORS: [f64; 6] = [1.0, 2.0, 4.0, 8.0, 3.0, 6.0];
+impl ConeMean {
+    fn decode(&self, id: u64) -> (Prob, EqSet) {
+        let m = cones_numel(&self.cones);
+        let mut d = Digits(id);
+        let mut a = Dense::zeros(m, m);
+        for i in 0..m {
+            let f = *d.pick(&CM_FACTORS);
+            a.set(i, i, if i % 2 == 0 { 1.0 } else { -1.0 } / (f * f));
+        }
+        let q = vec![1.0; m];
+        let b: Vec<f64> = (0..m).map(|i| if i % 2 == 0 { 1.0 } else { 3.0 }).collect();
+        (Prob { n: m, m, p: Dense::zeros(m, m), p_full: false, q, a, b, cones: self.cones.clone() }, EqSet { enable: true, max_iter: 10, min: 1e-4, max: 1e4 })
+    }
+}
+impl Space for ConeMean {
+    fn name(&self) -> String {
+        format!("equil-cone-mean-[{}]", self.cones.iter().map(|c| c.tag()).collect::<Vec<_>>().join(","))
+    }
+    fn size(&self) -> u64 {
+        (CM_FACTORS.len() as u64).pow(cones_numel(&self.cones) as u32)
+    }
+    fn describe(&self, id: u64) -> Value {
+        let (p, es) = self.decode(id);
+        json!({"problem": p.to_json(), "equilibrate_enable": es.enable, "equilibrate_max_iter": es.max_iter, "min_scaling": es.min, "max_scaling": es.max})
+    }
+    fn bound(&self) -> Value {
+        json!({"A": "diagonal, |a_ii| = 1/f^2", "row_factor_menu": CM_FACTORS, "assignments": "all"})
+    }
+    fn run(&self, id: u64, ctx: &mut Ctx) -> CaseResult {
+        let (p, es) = self.decode(id);
+        run_equil(p, es, ctx)
+    }
+}
+
 pub const ASSUMPTIONS: &[&str] = &[
     "entry-for-entry relations are compared to relative 1e-13 (about 25 compounded roundings over 10 Ruiz passes); scaling bounds carry a 64-ulp slack",
     "E is required to be constant on a non-scalar cone up to 8 ulp: the code forms e_i*(mean/e_i) per row, which rounds differently per row (observed 1-ulp spread); bitwise equality would demand more than the property states",
@@ -258,6 +308,14 @@ pub fn spaces(tier: &str, _seed: u64) -> Vec<Box<dyn Space>> {
                 sets: sets.clone(),
             }));
         }
+    }
+    for l in [vec![SOC(4)], vec![SOC(5)], vec![Exp], vec![Pow(0.5)], vec![GenPow(vec![0.5, 0.5], 2)], vec![PSD(2)], vec![NN(1), SOC(4)], vec![SOC(3), Exp]] {
+        v.push(Box::new(ConeMean { cones: l }));
+    }
+    if thorough {
+        v.push(Box::new(ConeMean { cones: vec![SOC(6)] }));
+        v.push(Box::new(ConeMean { cones: vec![PSD(3)] }));
+        v.push(Box::new(ConeMean { cones: vec![SOC(4), SOC(4)] }));
     }
     if thorough {
         for l in [vec![NN(2), SOC(2)], vec![Exp, NN(1)], vec![SOC(4)]] {
